@@ -29,6 +29,7 @@ def main(tier):
     r, s = cx.repo, cx.schema
     chk.run("R-ATTRTABLE", V.attrtable, r, floor=80)
     chk.run("R-ATTRKEY", V.attrkey, r, floor=3)
+    chk.run("R-VERIFYEXIT", V.verifyexit, r, floor=2)
     chk.run("R-ATTRVALUES", V.attrvalues, r, floor=4)
     chk.run("R-BYTEORDERREQ", V.byteorderreq, r, floor=29)
     chk.run("R-PHYSREQ", V.physreq, r, s, cx.sites, floor=2)
@@ -38,6 +39,7 @@ def main(tier):
     chk.run("R-RUNMAX", FL.runmax, r, modules=("attribute_checker.py", "constraints.py"), floor=1)
     chk.run("R-DEADFLAG", FL.deadflag, r, modules=("constraints.py", "attribute_checker.py", "attribute_util.py"), floor=1)
     chk.run("R-SKIPLOSS", T.skiploss, r, s, cx.sites, modules=("constraints.py", "attribute_checker.py"), floor=2)
+    chk.run("R-TRAVROOT", T.travroot, r, s, cx.sites, modules=("constraints.py", "attribute_checker.py"), floor=5)
     chk.run("R-BOUNDARY", RG.boundary, r, floor=130)
     chk.run("R-INTRANGE", RG.intrange, r, parts=('gate', 'leaf'), floor=150)
     chk.run("R-ATTRAGREE", V.attragree, cx.repo, floor=5)
